@@ -90,11 +90,23 @@ func DrawCell(t *rapid.T, name string) Cell {
 	case "Lag":
 		set("timeLag", float64(rapid.IntRange(0, 12).Draw(t, "lag")))
 	case "Sacramento":
-		set("uztwm", u(t, 5, 125, "uztwm"))
-		set("uzfwm", u(t, 5, 75, "uzfwm"))
-		set("lztwm", u(t, 5, 300, "lztwm"))
-		set("lzfsm", u(t, 5, 300, "lzfsm"))
-		set("lzfpm", u(t, 5, 600, "lzfpm"))
+		// capacities: small ones matter most (a store of a few mm meets a storm of a hundred), and so do
+		// very unequal pairs (the split of percolation between the two lower free-water stores)
+		capy := func(p string, hi float64) {
+			switch rapid.IntRange(0, 9).Draw(t, p+".k") {
+			case 0, 1:
+				set(p, 5)
+			case 2:
+				set(p, hi)
+			default:
+				set(p, logU(t, 5, hi, p))
+			}
+		}
+		capy("uztwm", 125)
+		capy("uzfwm", 75)
+		capy("lztwm", 300)
+		capy("lzfsm", 300)
+		capy("lzfpm", 600)
 		pctim := u(t, 0, 0.5, "pctim")
 		set("pctim", pctim)
 		set("adimp", u(t, 0, 0.9-pctim, "adimp"))
@@ -328,7 +340,7 @@ func DrawStorageCell(t *rapid.T, desc sim.ModelDescription, cell Cell) {
 // heavy-tailed storms, constants, ramps, pulses, exact repeats.
 func Series(t *rapid.T, n int, scale float64, label string) []float64 {
 	v := make([]float64, n)
-	kind := rapid.IntRange(0, 6).Draw(t, label+".kind")
+	kind := rapid.IntRange(0, 8).Draw(t, label+".kind")
 	pDry := rapid.Float64Range(0, 0.9).Draw(t, label+".pdry")
 	switch kind {
 	case 0: // constant
@@ -343,6 +355,22 @@ func Series(t *rapid.T, n int, scale float64, label string) []float64 {
 		a := u(t, 0, scale, label+".a")
 		for i := range v {
 			v[i] = a * float64(i) / float64(n)
+		}
+	case 7, 8: // regimes: runs of constant forcing (a wet season fills every store, then a dry one drains them)
+		i := 0
+		for i < n {
+			l := rapid.IntRange(1, 40).Draw(t, label+".run")
+			c := 0.0
+			switch rapid.IntRange(0, 3).Draw(t, label+".level") {
+			case 1:
+				c = u(t, 0, scale, label+".low")
+			case 2, 3:
+				c = scale * rapid.Float64Range(3, 60).Draw(t, label+".high")
+			}
+			for k := 0; k < l && i < n; k++ {
+				v[i] = c
+				i++
+			}
 		}
 	default: // mixture
 		i := 0
